@@ -89,3 +89,90 @@ pub fn workload(r: &mut Rng, k: u64, mix: u32, ngoals: usize) -> Work {
         }
     }
 }
+
+/// Lifetime fragment (text only, no reference semantics): structs with lifetime parameters, impls and raw clauses whose
+/// headers repeat a lifetime parameter or fix it to `'static`, where-clauses that pass lifetimes on, outlives
+/// where-clauses; goals that mix universally and existentially quantified lifetimes, with and without hypotheses.
+/// Used by the monitors that need no oracle (termination, history, interruption, crash, differential).
+pub fn lifetime_work(r: &mut Rng, ngoals: usize) -> Work {
+    let mut t = String::new();
+    t.push_str("struct A { }\nstruct B { }\nstruct R<'c, 'a, 'b> { }\nstruct W<'c, 'a, 'b> { }\nstruct Rf<'a, T> { }\n");
+    t.push_str("trait Foo { }\ntrait Bar { }\ntrait Baz<'x> { }\n");
+    // a lifetime argument of a clause head / where-clause over the parameters 'p0..'p2
+    let la = |r: &mut Rng, n: usize| -> String {
+        match r.below(5) {
+            0 => "'static".to_string(),
+            _ => format!("'p{}", r.below(n)),
+        }
+    };
+    let r3 = |r: &mut Rng, n: usize| -> String {
+        if n >= 2 && r.chance(60) {
+            // the first lifetime stays independent of the others (an existential there is left unconstrained)
+            let rest = |r: &mut Rng| if r.chance(25) { "'static".to_string() } else { format!("'p{}", 1 + r.below(n - 1)) };
+            format!("R<'p0, {}, {}>", rest(r), rest(r))
+        } else {
+            format!("R<{}, {}, {}>", la(r, n), la(r, n), la(r, n))
+        }
+    };
+    let params = |n: usize| (0..n).map(|i| format!("'p{}", i)).collect::<Vec<_>>().join(", ");
+    let nfoo = 1 + r.below(3);
+    for _ in 0..nfoo {
+        let n = 2 + r.below(2);
+        if r.chance(50) {
+            t.push_str(&format!("forall<{}> {{ {}: Foo }}\n", params(n), r3(r, n)));
+        } else {
+            let wh = if n >= 2 && r.chance(30) { format!(" where 'p0: 'p1") } else { String::new() };
+            t.push_str(&format!("impl<{}> Foo for {}{} {{ }}\n", params(n), r3(r, n), wh));
+        }
+    }
+    // Bar for W through Foo for R (the where-clause's answer carries region constraints)
+    t.push_str(&format!("impl<'p0, 'p1, 'p2> Bar for W<'p0, 'p1, 'p2> where {}: Foo {{ }}\n", if r.chance(70) { "R<'p0, 'p1, 'p2>".to_string() } else { r3(r, 3) }));
+    if r.chance(50) {
+        t.push_str(&format!("impl<'p0, 'p1, 'p2> Bar for R<'p0, 'p1, 'p2> where W<'p0, 'p1, 'p2>: Bar, {}: Foo {{ }}\n", r3(r, 3)));
+    }
+    if r.chance(60) {
+        t.push_str("impl<'p0, T> Foo for Rf<'p0, T> where T: Foo { }\n");
+        t.push_str("impl Foo for A { }\n");
+    }
+    if r.chance(50) {
+        t.push_str(&format!("impl<'p0, 'p1> Baz<'p0> for Rf<'p1, A> {{ }}\nimpl<'p0> Baz<{}> for Rf<'p0, B> {{ }}\n", if r.chance(50) { "'static" } else { "'p0" }));
+    }
+    // goals
+    let ga = |r: &mut Rng, names: &[&str]| -> String { if r.chance(15) { "'static".to_string() } else { r.pick(names).to_string() } };
+    let mut goals = vec![];
+    for gi in 0..ngoals {
+        let names = ["'a", "'b", "'c"];
+        let head = *r.pick(&["W", "R"]);
+        let tr = if head == "W" { "Bar" } else { *r.pick(&["Foo", "Bar"]) };
+        let atom = |r: &mut Rng| match r.below(6) {
+            0 => format!("Rf<{}, A>: Baz<{}>", ga(r, &names), ga(r, &names)),
+            1 => format!("Rf<{}, Rf<{}, A>>: Foo", ga(r, &names), ga(r, &names)),
+            _ => format!("{}<{}, {}, {}>: {}", head, ga(r, &names), ga(r, &names), ga(r, &names), tr),
+        };
+        let body = if r.chance(30) { format!("{}, {}", atom(r), atom(r)) } else { atom(r) };
+        let hyp = if r.chance(35) {
+            let h = match r.below(3) {
+                0 => format!("forall<'d> {{ R<'d, {}, {}>: Foo }}", ga(r, &["'a", "'b"]), ga(r, &["'a", "'b"])),
+                1 => format!("R<{}, {}, {}>: Foo", ga(r, &["'a", "'b"]), ga(r, &["'a", "'b"]), ga(r, &["'a", "'b"])),
+                _ => "'a: 'b".to_string(),
+            };
+            Some(h)
+        } else {
+            None
+        };
+        // which of 'a 'b 'c are universal / existential
+        let shape = (gi + r.below(4)) % 4;
+        let inner = match &hyp {
+            Some(h) if shape != 3 => format!("if ({}) {{ exists<'c> {{ {} }} }}", h, body),
+            _ => format!("exists<'c> {{ {} }}", body),
+        };
+        let g = match shape {
+            0 => format!("forall<'a, 'b> {{ {} }}", inner),
+            1 => format!("forall<'a> {{ exists<'b> {{ {} }} }}", inner),
+            2 => format!("exists<'a> {{ forall<'b> {{ {} }} }}", inner),
+            _ => format!("exists<'a, 'b> {{ {} }}", inner),
+        };
+        goals.push((g, vec![], None));
+    }
+    Work { prog: MProgram::default(), text: t, goals, fragment: "lifetime" }
+}
